@@ -158,9 +158,22 @@ Proof. intros rho g.
            (MMul (MLeaf [[E1; E0]; [E0; EVar 6]]) (MLeaf [[E1; E0]; [E0; EVar 6]])) (MLeaf [[E1; E0]; [E0; EPow (EVar 6) 2]]));
   vm_compute; reflexivity. Qed.
 
+Example config_of_example : forall rho, interpM rho (MMul (MDag (U y x)) (U y x)) = interpM rho I2.
+Proof. sym_decide (config_of [(0%nat, 1%positive); (1%nat, 2%positive)]). Qed.
+Example diff_example : mexpr_diff cf (MLeaf [[E1; x]]) (MLeaf [[E1; E0]]) = Some [(0%nat, 1%nat, pplain 0)].
+Proof. vm_compute. reflexivity. Qed.
+
 (* rejected: a wrong matrix identity, a dimension mismatch, a ragged leaf *)
 Example mfalse_rejected : mexpr_eqb cf (MMul (U y x) (U y x)) I2 = false.
 Proof. vm_compute. reflexivity. Qed.
 Example mshape_rejected : mnorm cf (MMul I2 CX) = None /\ mnorm cf (MAdd I2 CX) = None
                           /\ mnorm cf (MLeaf [[E1; E0]; [E0]]) = None /\ mexpr_eqb cf I2 I4 = false.
 Proof. vm_compute. repeat split. Qed.
+
+(* ---------- the main theorems and what they rest on ---------- *)
+Check norm_sound : forall cfg e p, norm cfg e = Some p -> forall rho, interpC rho e = evalP cfg rho p.
+Check expr_eq_sound : forall cfg e1 e2, expr_eqb cfg e1 e2 = true -> forall rho, interpC rho e1 = interpC rho e2.
+Check mexpr_eq_sound : forall cfg m1 m2, mexpr_eqb cfg m1 m2 = true -> forall rho, interpM rho m1 = interpM rho m2.
+Print Assumptions norm_sound.
+Print Assumptions expr_eq_sound.
+Print Assumptions mexpr_eq_sound.
